@@ -27,6 +27,7 @@ type VerifC19Stream struct {
 // VerifC19Tables is what PrepareChannels left behind (or Rejected when Sample/PrepareChannels returned an error).
 type VerifC19Tables struct {
 	Rejected         bool
+	ConfigOnly       bool // the step was a Configure request only: Rejected says how it was answered, no tables
 	Nchan            int
 	ChannelsPerPixel int
 	Streams          []VerifC19Stream
@@ -211,6 +212,62 @@ func VerifC19GenericSeq(kind int, nchans []int) ([]VerifC19Tables, *AnySource) {
 		if err == nil {
 			err = ds.Sample()
 		}
+		if err == nil {
+			err = ds.PrepareChannels()
+		}
+		if err != nil {
+			out = append(out, VerifC19Tables{Rejected: true})
+			continue
+		}
+		out = append(out, verifC19Tables(any))
+	}
+	return out, any
+}
+
+// VerifC19SimOp is one request to ONE simulated source: a Configure request for Nchan channels (Late = with a
+// buffer that would last more than 4 s, which Configure refuses only after it has looked at the channel count),
+// or (Configure false) the table-building part of Start: Sample, then PrepareChannels.
+type VerifC19SimOp struct {
+	Configure bool
+	Nchan     int
+	Late      bool
+}
+
+// VerifC19SimSeq runs the requests on one TriangleSource (kind 0) or SimPulseSource (kind 1).
+func VerifC19SimSeq(kind int, ops []VerifC19SimOp) ([]VerifC19Tables, *AnySource) {
+	var ds DataSource
+	var any *AnySource
+	var ts *TriangleSource
+	var ps *SimPulseSource
+	if kind == 0 {
+		ts = NewTriangleSource()
+		ds, any = ts, &ts.AnySource
+	} else {
+		ps = NewSimPulseSource()
+		ds, any = ps, &ps.AnySource
+	}
+	var out []VerifC19Tables
+	for _, op := range ops {
+		if op.Configure {
+			var err error
+			if kind == 0 {
+				c := TriangleSourceConfig{Nchan: op.Nchan, SampleRate: 10000, Min: 100, Max: 200}
+				if op.Late {
+					c.Min, c.Max = 0, 50000 // one cycle = 100000 samples = 10 s
+				}
+				err = ts.Configure(&c)
+			} else {
+				c := SimPulseSourceConfig{Nchan: op.Nchan, SampleRate: 10000, Pedestal: 1000,
+					Amplitudes: []float64{5000}, Nsamp: 100}
+				if op.Late {
+					c.Nsamp = 50000 // one cycle = 5 s
+				}
+				err = ps.Configure(&c)
+			}
+			out = append(out, VerifC19Tables{ConfigOnly: true, Rejected: err != nil})
+			continue
+		}
+		err := ds.Sample()
 		if err == nil {
 			err = ds.PrepareChannels()
 		}
